@@ -75,6 +75,11 @@ class D(Driver):
         ("picosvg.svg_meta", "cmd_coords"),
     )
     deciding_monitors = ("rewrite", "as_path")
+    # every rewrite must have been *judged* often, not merely called: a rewrite that refuses (ValueError)
+    # everything it is given would otherwise leave no trace
+    feature_floors = {"rewrite.absolute.ok": 3000, "rewrite.absolute_moveto.ok": 3000, "rewrite.relative.ok": 3000, "rewrite.explicit_lines.ok": 3000,
+                      "rewrite.expand_shorthand.ok": 3000, "rewrite.arcs_to_cubics.ok": 3000, "rewrite.move.ok": 1500, "rewrite.subpaths.ok": 3000,
+                      "rewrite.as_cmd_seq.ok": 3000, "rewrite.round_floats.ok": 1500, "rewrite.remove_empty_subpaths.ok": 1500}
     nt_floor = {"quick": 2000, "thorough": 20000}
     time_budget = {"quick": 150, "thorough": 1200}
 
